@@ -24,6 +24,8 @@ var corpus = []string{
 	"H 20 0,0,0,0,0 s:e0.0.182641030432767838.0:0;s:e0.0.5.1:0;s:e0.0.182641030432767837.2:0;p:1:0:60000",
 	// truncation
 	"H 2 0,3,0,0,0 s:e0.0.1000000.0:0;s:e1.3.2000000.0:0;s:e1.4.2000000.0:0;s:o2.0.500.0:0;p:1:0:2;p:1:0:1;p:0:0:1",
+	// Verify alone: the transaction sits in the first / a later / no checked window block
+	"H 20 0,0,0,0,0 n:0;c:e0.0.1000.0;n:1;c:e0.1.1000.1;n:2;y:e0.0.1000.0:0;y:e0.0.1000.0:1;y:e0.0.1000.0:2;y:e0.1.1000.1:2;y:e0.2.1000.2:1;y:e0.2.1000.2:3",
 	"H 0 0,0,0,0,0 s:o1.5.700.0:0;s:o1.5.700.0:0;c:o1.5.700.0;s:o1.5.700.0:0;s:o1.5.700.0:1;p:1:1:60000;r;b:5;v",
 }
 
@@ -303,8 +305,16 @@ func gen(r *hx.Rand, tier string, i int) string {
 			g.ops = append(g.ops, fmt.Sprintf("g:%s:%d:%d", hx.B(r.Bool()), r.Intn(g.tip+2), g.maxTx()))
 		case x < 91:
 			g.ops = append(g.ops, fmt.Sprintf("n:%d", r.Intn(g.tip+2)))
-		case x < 94:
+		case x < 93:
 			g.ops = append(g.ops, fmt.Sprintf("k:%d", r.Intn(g.tip+2)))
+		case x < 94 || (x < 97 && len(g.all) > 0 && g.tip > 0):
+			if len(g.all) > 0 { // Verify on its own: mostly a committed transaction, any start height
+				tok := g.all[r.Intn(len(g.all))]
+				for try := 0; try < 6 && !g.onChain[tok]; try++ {
+					tok = g.all[r.Intn(len(g.all))]
+				}
+				g.ops = append(g.ops, fmt.Sprintf("y:%s:%d", tok, r.Intn(g.tip+2)))
+			}
 		case x < 96:
 			g.ops = append(g.ops, "r")
 			for s := range g.subm {
